@@ -44,7 +44,7 @@ def dedupe_sim(hists, depth):
 def simulate_parallel(ctx, files, module, cfg, total, depth, tag, chunks=None, timeout=6000):
     """TLC -simulate is single-threaded: run `chunks` independent TLC processes with seeds derived
     from ctx.seed and merge the printed histories. Returns (histories, states_checked)."""
-    chunks = chunks or max(1, min(ctx.cores, 16, (total + 27) // 28))
+    chunks = chunks or max(1, min(ctx.cores, 16, (total + 13) // 14))
     per = (total + chunks - 1) // chunks
 
     def one(i):
